@@ -365,6 +365,8 @@ func (r *Round) UpdateNotarizedBlock(b *block.Block) {
 
 /*GetNotarizedBlocks - return all the notarized blocks associated with this round */
 func (r *Round) GetNotarizedBlocks() []*block.Block {
+	r.mutex.RLock()
+	defer r.mutex.RUnlock()
 	return r.notarizedBlocks
 }
 
@@ -407,7 +409,9 @@ func (r *Round) GetBestRankedProposedBlock() *block.Block {
 	if len(pbs) == 1 {
 		return pbs[0]
 	}
-	pbs = r.GetBlocksByRank(pbs)
+	// sort a copy: only the read lock is held and the shared slice must not be
+	// reordered under the other readers
+	pbs = r.GetBlocksByRank(append([]*block.Block(nil), pbs...))
 	return pbs[0]
 }
 
@@ -439,7 +443,9 @@ func (r *Round) GetBestRankedNotarizedBlock() *block.Block {
 	if len(rnb) == 1 {
 		return rnb[0]
 	}
-	rnb = r.GetBlocksByRank(rnb)
+	// sort a copy: only the read lock is held, and the shared slice must stay ordered
+	// from heaviest to lightest
+	rnb = r.GetBlocksByRank(append([]*block.Block(nil), rnb...))
 	return rnb[0]
 }
 
